@@ -5,6 +5,7 @@ import (
 	"go/ast"
 	"go/token"
 	"go/types"
+	"sort"
 	"strings"
 
 	"goblcheck/core"
@@ -101,6 +102,99 @@ func C01(c *core.Ctx) {
 	rowSeedRule(c, "C01-R1")
 	c01RoundCoverage(c)
 	c01RoundingLast(c)
+	c01RescaleNotScaled(c)
+	// R5: the rounding primitive itself (decided under C05-R1, re-reported)
+	c.Rule("C01-R5", "every amount operation rounds with math.Round — half away from zero for both signs (shared with C05-R1)", 7)
+	sub := core.NewCtx("C05", c.Tier, c.Seed, c.P, c.VerifDir)
+	sub.Quiet = true
+	C05(sub)
+	for _, o := range sub.Obligations() {
+		if o.Rule == "C05-R1" {
+			c.ObAt("C01-R5", o.Key, o.Pos, o.OK, o.Msg)
+		}
+	}
+}
+
+// c01RescaleNotScaled — C01-R4: the result of a precision-lowering
+// Amount.Rescale is not afterwards multiplied or divided (Multiply, Divide,
+// Percentage.Of/From, Split) in the same function: rounding to a target
+// precision is the last arithmetic step on a value, not a step before it is
+// scaled by a rate, quantity or percentage.
+func c01RescaleNotScaled(c *core.Ctx) {
+	p := c.P
+	c.Rule("C01-R4", "a value lowered in precision with Rescale is not multiplied or divided afterwards", 15)
+	scaling := func(fn *types.Func) bool {
+		if fn == nil || fn.Pkg() == nil || fn.Pkg().Path() != core.ModPath+"/num" {
+			return false
+		}
+		switch fn.Name() {
+		case "Multiply", "Divide", "Of", "From", "Split", "Remove", "Upscale":
+			return true
+		}
+		return false
+	}
+	for _, rel := range []string{"bill", "tax", "currency", "pay", "org"} {
+		pk := p.Pkg(rel)
+		if pk == nil {
+			continue
+		}
+		for _, fd := range p.Funcs(pk) {
+			info := fd.Pkg.TypesInfo
+			var stack []ast.Node
+			idx := 0
+			ast.Inspect(fd.Decl.Body, func(n ast.Node) bool {
+				if n == nil {
+					stack = stack[:len(stack)-1]
+					return true
+				}
+				stack = append(stack, n)
+				call, ok := n.(*ast.CallExpr)
+				if !ok || !isAmountMethod(core.Callee(info, call), "Rescale") {
+					return true
+				}
+				idx++
+				key := fmt.Sprintf("%s#rescale%d", fd.Name(), idx)
+				bad := ""
+				// (a) used directly as receiver or argument of a scaling call
+				if len(stack) >= 2 {
+					par := stack[len(stack)-2]
+					if se, ok := par.(*ast.SelectorExpr); ok && len(stack) >= 3 {
+						if pc, ok := stack[len(stack)-3].(*ast.CallExpr); ok && pc.Fun == ast.Expr(se) && scaling(core.Callee(info, pc)) {
+							bad = "its result is the receiver of " + core.Callee(info, pc).Name()
+						}
+					}
+					if pc, ok := par.(*ast.CallExpr); ok && pc != call && scaling(core.Callee(info, pc)) {
+						bad = "its result is an argument of " + core.Callee(info, pc).Name()
+					}
+					// (b) stored in a local that is scaled later
+					if as, ok := par.(*ast.AssignStmt); ok && len(as.Lhs) == 1 {
+						if v := core.VarOf(info, as.Lhs[0]); v != nil && !v.IsField() {
+							if id, isID := ast.Unparen(as.Lhs[0]).(*ast.Ident); isID && id != nil {
+								ast.Inspect(fd.Decl.Body, func(m ast.Node) bool {
+									pc, ok := m.(*ast.CallExpr)
+									if !ok || pc.Pos() <= as.End() || !scaling(core.Callee(info, pc)) {
+										return true
+									}
+									if core.VarOf(info, core.RecvExpr(pc)) == v {
+										bad = fmt.Sprintf("the local `%s` it is stored in is the receiver of %s at %s", v.Name(), core.Callee(info, pc).Name(), p.Rel(pc.Pos()))
+									}
+									for _, a := range pc.Args {
+										if core.VarOf(info, a) == v {
+											bad = fmt.Sprintf("the local `%s` it is stored in is an argument of %s at %s", v.Name(), core.Callee(info, pc).Name(), p.Rel(pc.Pos()))
+										}
+									}
+									return true
+								})
+							}
+						}
+					}
+				}
+				c.Ob("C01-R4", key, call.Pos(), bad == "",
+					"the value is rounded to a lower precision with Rescale and then scaled: "+bad+" — a rounding point in the middle of the calculation (the decimals beyond the target precision are lost before the rate, quantity or percentage is applied)")
+				return true
+			})
+		}
+	}
 }
 
 func c01RoundCoverage(c *core.Ctx) { roundCoverage(c, "C01-R2") }
@@ -348,6 +442,196 @@ func C17(c *core.Ctx) {
 	} else {
 		c.Ob("C17-R3", "UNRESOLVED:bill.removeIncludedTaxes", token.NoPos, false, "function not found")
 	}
+	c17Invert(c)
+	// R5: row grouping is symmetric (the group a row joins does not depend on which row came first):
+	// the matching predicate's truth table, decided under C02-R1, re-reported here
+	c.Rule("C17-R5", "row grouping predicate equals the symmetric group identity (shared with C02-R1)", 2)
+	sub2 := core.NewCtx("C02", c.Tier, c.Seed, p, c.VerifDir)
+	sub2.Quiet = true
+	c02Matching(sub2)
+	for _, o := range sub2.Obligations() {
+		if o.Rule == "C02-R1" {
+			c.ObAt("C17-R5", o.Key, o.Pos, o.OK, o.Msg)
+		}
+	}
+}
+
+// c17Invert — C17-R4: every sign flip in Invoice.Invert is applied to every
+// element of the array it walks (no condition other than the presence of the
+// flipped value itself), every array walked has a flip, and the totals are
+// discarded and recalculated afterwards. A flip that skips some rows (e.g.
+// those with a percentage) leaves their fixed amounts with the old sign.
+func c17Invert(c *core.Ctx) {
+	p := c.P
+	c.Rule("C17-R4", "Invoice.Invert flips its input amounts on every row, then recalculates", 7)
+	fd := p.Func("bill", "Invoice", "Invert")
+	if fd == nil {
+		c.Ob("C17-R4", "UNRESOLVED:bill.Invoice.Invert", token.NoPos, false, "method not found")
+		return
+	}
+	info := fd.Pkg.TypesInfo
+	flipped := map[*types.Var]bool{} // range variables with a flip
+	n := 0
+	var lastFlip token.Pos
+	ast.Inspect(fd.Decl.Body, func(m ast.Node) bool {
+		as, ok := m.(*ast.AssignStmt)
+		if !ok || len(as.Lhs) != 1 || len(as.Rhs) != 1 {
+			return true
+		}
+		call, ok := ast.Unparen(as.Rhs[0]).(*ast.CallExpr)
+		if !ok || !isAmountMethod(core.Callee(info, call), "Invert", "Negate") || !sameLoc(info, as.Lhs[0], core.RecvExpr(call)) {
+			return true
+		}
+		root := core.RootVar(info, as.Lhs[0])
+		if root == nil || root == recvVar(fd) {
+			return true
+		}
+		n++
+		flipped[root] = true
+		if as.Pos() > lastFlip {
+			lastFlip = as.Pos()
+		}
+		why := everyIteration(p, info, fd.Decl.Body, as, nilTestOfOperands(info, as))
+		c.Ob("C17-R4", fmt.Sprintf("%s#flip:%s", fd.Name(), types.ExprString(as.Lhs[0])), as.Pos(), why == "",
+			"the sign flip is not applied to every row: "+why+" — rows that are skipped keep their sign, so the inverted document is not the mirror image (or Invert fails its own payable check)")
+		return true
+	})
+	ast.Inspect(fd.Decl.Body, func(m ast.Node) bool {
+		rs, ok := m.(*ast.RangeStmt)
+		if !ok || rs.Value == nil {
+			return true
+		}
+		v := core.VarOf(info, rs.Value)
+		if v == nil {
+			return true
+		}
+		if _, st := core.StructOf(v.Type()); st == nil {
+			return true
+		}
+		c.Ob("C17-R4", fmt.Sprintf("%s#walk:%s", fd.Name(), types.ExprString(rs.X)), rs.Pos(), flipped[v],
+			"Invert walks "+types.ExprString(rs.X)+" without flipping an amount of its rows")
+		return true
+	})
+	// inputs from which a flipped Amount is recomputed must be flipped as well
+	c17InvertInputs(c, fd)
+	// totals discarded and recalculated after the flips
+	reset, recalculated := false, false
+	ast.Inspect(fd.Decl.Body, func(m ast.Node) bool {
+		switch x := m.(type) {
+		case *ast.AssignStmt:
+			if len(x.Lhs) == 1 && core.IsFieldOfVar(info, x.Lhs[0], recvVar(fd), "Totals") && core.IsNil(info, x.Rhs[0]) && x.Pos() > lastFlip {
+				reset = true
+			}
+		case *ast.CallExpr:
+			if fn := core.Callee(info, x); fn != nil && fn.Name() == "Calculate" && core.VarOf(info, core.RecvExpr(x)) == recvVar(fd) && x.Pos() > lastFlip {
+				recalculated = true
+			}
+		}
+		return true
+	})
+	c.Ob("C17-R4", fd.Name()+"#recalculated", fd.Decl.Pos(), n > 0 && reset && recalculated,
+		"after the flips the totals are not discarded and the invoice recalculated")
+	// totals members that the calculation takes as given (not cleared by Totals.reset, read by
+	// calculate) are inputs too: discarding the totals must carry them over, inverted
+	totals := p.Named("bill", "Totals")
+	rfd := p.Func("bill", "Totals", "reset")
+	cfd := p.Func("bill", "", "calculate")
+	if totals == nil || rfd == nil || cfd == nil {
+		c.Ob("C17-R4", "UNRESOLVED:bill.Totals.reset", token.NoPos, false, "totals type, reset or calculate not found")
+		return
+	}
+	assigned := func(f *core.FuncDecl, name string) bool {
+		found := false
+		ast.Inspect(f.Decl.Body, func(m ast.Node) bool {
+			if as, ok := m.(*ast.AssignStmt); ok {
+				for _, l := range as.Lhs {
+					l = ast.Unparen(l)
+					if st, isStar := l.(*ast.StarExpr); isStar {
+						l = ast.Unparen(st.X)
+					}
+					if fl := core.FieldOf(f.Pkg.TypesInfo, l); fl != nil && fl.Name() == name && core.RecvNamed(f.Obj) == totals || (fl != nil && fl.Name() == name && f == cfd) {
+						found = true
+					}
+				}
+			}
+			return true
+		})
+		return found
+	}
+	read := func(f *core.FuncDecl, fld *types.Var) bool {
+		found := false
+		ast.Inspect(f.Decl.Body, func(m ast.Node) bool {
+			if se, ok := m.(*ast.SelectorExpr); ok && core.FieldOf(f.Pkg.TypesInfo, se) == fld {
+				found = true
+			}
+			return true
+		})
+		return found
+	}
+	st := totals.Underlying().(*types.Struct)
+	for i := 0; i < st.NumFields(); i++ {
+		f := st.Field(i)
+		if ts := core.TypeString(f.Type()); ts != "num.Amount" && ts != "*num.Amount" {
+			continue
+		}
+		if assigned(rfd, f.Name()) || assigned(cfd, f.Name()) || !read(cfd, f) {
+			continue // calculated, or not used by the calculation
+		}
+		// an input: Invert must store it inverted (in a replacement Totals or into the field)
+		kept := false
+		ast.Inspect(fd.Decl.Body, func(m ast.Node) bool {
+			negated := func(e ast.Expr) bool {
+				r := false
+				ast.Inspect(e, func(k ast.Node) bool {
+					if call, ok := k.(*ast.CallExpr); ok {
+						fn := core.Callee(info, call)
+						if isAmountMethod(fn, "Invert", "Negate") {
+							r = true
+						} else if fn != nil && fn.Pkg() == fd.Obj.Pkg() {
+							if hfd := p.DeclOf(fn); hfd != nil && len(core.CallsTo(hfd.Pkg.TypesInfo, hfd.Decl.Body, func(g *types.Func) bool { return isAmountMethod(g, "Invert", "Negate") })) > 0 {
+								r = true
+							}
+						}
+					}
+					return true
+				})
+				return r
+			}
+			switch x := m.(type) {
+			case *ast.KeyValueExpr:
+				if id, ok := x.Key.(*ast.Ident); ok && id.Name == f.Name() && info.Uses[id] == types.Object(f) {
+					if negated(x.Value) {
+						kept = true
+					} else if v := core.VarOf(info, x.Value); v != nil {
+						ld := core.NewLocalDefs(info, fd.Decl.Body)
+						for _, d := range ld.All(v) {
+							if d.RHS != nil && negated(d.RHS) {
+								kept = true
+							}
+						}
+					}
+				}
+			case *ast.AssignStmt:
+				for i, l := range x.Lhs {
+					if core.FieldOf(info, l) == f && i < len(x.Rhs) && x.Pos() > lastFlip {
+						if negated(x.Rhs[i]) {
+							kept = true
+						} else if v := core.VarOf(info, x.Rhs[i]); v != nil {
+							ld := core.NewLocalDefs(info, fd.Decl.Body)
+							for _, d := range ld.All(v) {
+								if d.RHS != nil && negated(d.RHS) {
+									kept = true
+								}
+							}
+						}
+					}
+				}
+			}
+			return true
+		})
+		c.Ob("C17-R4", fd.Name()+"#totals-input:"+f.Name(), fd.Decl.Pos(), kept,
+			fmt.Sprintf("bill.Totals.%s is taken as given by the calculation (Totals.reset keeps it), but Invert discards the totals without carrying it over inverted: the recalculated payable differs and Invert fails its own check on a valid invoice", f.Name()))
+	}
 }
 
 // rowSeedRule: the zero handed to the find-or-create of a tax rate row must be
@@ -368,4 +652,152 @@ func rowSeedRule(c *core.Ctx, rule string) {
 	if n == 0 {
 		c.Ob(rule, "UNRESOLVED:rateTotalFor", token.NoPos, false, "no call of the rate row find-or-create found")
 	}
+}
+
+// c17InvertInputs: Invert flips the Amount of discount and charge rows and then
+// recalculates. Where the calculation recomputes such an Amount from amounts
+// the row itself carries (an explicit base for a percentage; rate × own
+// quantity), the recomputed value overrides the flipped one — so at least one
+// of those row-own inputs must be flipped too, or Invert fails its own payable
+// check on a valid invoice. Row-own inputs are read off the calculators: the
+// amount-typed fields of the same row reaching `row.Amount = …` through local
+// definitions.
+func c17InvertInputs(c *core.Ctx, inv *core.FuncDecl) {
+	p := c.P
+	info := inv.Pkg.TypesInfo
+	flipped := map[*types.Named]map[string]bool{}
+	ast.Inspect(inv.Decl.Body, func(m ast.Node) bool {
+		as, ok := m.(*ast.AssignStmt)
+		if !ok || len(as.Lhs) != 1 || len(as.Rhs) != 1 {
+			return true
+		}
+		// x.F = x.F.Invert()   or   b := x.F.Invert(); x.F = &b
+		lhs := ast.Unparen(as.Lhs[0])
+		if st, isStar := lhs.(*ast.StarExpr); isStar {
+			lhs = ast.Unparen(st.X)
+		}
+		f := core.FieldOf(info, lhs)
+		root := core.RootVar(info, lhs)
+		if f == nil || root == nil {
+			return true
+		}
+		n, _ := core.StructOf(root.Type())
+		if n == nil {
+			return true
+		}
+		neg := false
+		ast.Inspect(as.Rhs[0], func(k ast.Node) bool {
+			if call, ok := k.(*ast.CallExpr); ok {
+				fn := core.Callee(info, call)
+				if isAmountMethod(fn, "Invert", "Negate") {
+					neg = true
+				} else if fn != nil && fn.Pkg() == inv.Obj.Pkg() {
+					// a helper of the package that negates what it is given
+					if hfd := p.DeclOf(fn); hfd != nil {
+						for _, hc := range core.CallsTo(hfd.Pkg.TypesInfo, hfd.Decl.Body, func(f *types.Func) bool { return isAmountMethod(f, "Invert", "Negate") }) {
+							_ = hc
+							neg = true
+						}
+					}
+				}
+			}
+			return true
+		})
+		if !neg {
+			if u, ok := ast.Unparen(as.Rhs[0]).(*ast.UnaryExpr); ok && u.Op == token.AND {
+				if v := core.VarOf(info, u.X); v != nil {
+					ld := core.NewLocalDefs(info, inv.Decl.Body)
+					for _, d := range ld.All(v) {
+						if d.RHS != nil {
+							ast.Inspect(d.RHS, func(k ast.Node) bool {
+								if call, ok := k.(*ast.CallExpr); ok && isAmountMethod(core.Callee(info, call), "Invert", "Negate") {
+									neg = true
+								}
+								return true
+							})
+						}
+					}
+				}
+			}
+		}
+		if neg {
+			if flipped[n] == nil {
+				flipped[n] = map[string]bool{}
+			}
+			flipped[n][f.Name()] = true
+		}
+		return true
+	})
+	isAmt := func(t types.Type) bool {
+		ts := core.TypeString(t)
+		return ts == "num.Amount" || ts == "*num.Amount"
+	}
+	nSites := 0
+	for _, fd := range p.Funcs(p.Pkg("bill")) {
+		if fd.Obj == inv.Obj {
+			continue
+		}
+		finfo := fd.Pkg.TypesInfo
+		ld := core.NewLocalDefs(finfo, fd.Decl.Body)
+		ast.Inspect(fd.Decl.Body, func(m ast.Node) bool {
+			as, ok := m.(*ast.AssignStmt)
+			if !ok || len(as.Lhs) != 1 || len(as.Rhs) != 1 {
+				return true
+			}
+			lf := core.FieldOf(finfo, as.Lhs[0])
+			row := core.RootVar(finfo, as.Lhs[0])
+			if lf == nil || lf.Name() != "Amount" || row == nil {
+				return true
+			}
+			rowT, _ := core.StructOf(row.Type())
+			if rowT == nil || flipped[rowT] == nil || !flipped[rowT]["Amount"] {
+				return true
+			}
+			// row-own amount inputs reaching the right-hand side
+			src := map[string]bool{}
+			seen := map[*types.Var]bool{}
+			var collect func(e ast.Expr, depth int)
+			collect = func(e ast.Expr, depth int) {
+				if depth > 5 {
+					return
+				}
+				ast.Inspect(e, func(k ast.Node) bool {
+					switch x := k.(type) {
+					case *ast.SelectorExpr:
+						if f := core.FieldOf(finfo, x); f != nil && core.VarOf(finfo, x.X) == row && isAmt(f.Type()) && f.Name() != "Amount" {
+							src[f.Name()] = true
+						}
+					case *ast.Ident:
+						if v, ok := finfo.Uses[x].(*types.Var); ok && !v.IsField() && v != row && !seen[v] && isAmt(v.Type()) {
+							seen[v] = true
+							for _, d := range ld.All(v) {
+								if d.RHS != nil && d.Pos < as.Pos() {
+									collect(d.RHS, depth+1)
+								}
+							}
+						}
+					}
+					return true
+				})
+			}
+			collect(as.Rhs[0], 0)
+			if len(src) == 0 {
+				return true
+			}
+			nSites++
+			some := false
+			var names []string
+			for k := range src {
+				names = append(names, k)
+				if flipped[rowT][k] {
+					some = true
+				}
+			}
+			sort.Strings(names)
+			c.Ob("C17-R4", fmt.Sprintf("%s#inputs-of:%s.Amount@%s", inv.Name(), core.TypeName(rowT), fd.Obj.Name()), as.Pos(), some,
+				fmt.Sprintf("Invert flips %s.Amount, but %s recomputes it from the row's own %v, none of which Invert flips: the recalculation restores the old sign and Invert fails its payable check on a valid invoice", core.TypeName(rowT), fd.Name(), names))
+			return true
+		})
+	}
+	c.Extra("amount_recomputations_from_row_inputs", nSites)
 }
